@@ -325,11 +325,18 @@ def read_siginfo(buf, vs, ve, ignore_critical, cert=False):
         if e:
             # AdditionalDescription = 1*DescriptionEntry(0x0200) { DescriptionKey(0x0201) DescriptionValue(0x0202) }
             ents = []
+            regular = True
             for (t2, ts2, vs2, ve2) in children(buf, e[1], e[2]):
                 if t2 == 0x0200:
-                    kv = {k[0]: bytes(buf[k[2]:k[3]]) for k in children(buf, vs2, ve2)}
+                    kids2 = children(buf, vs2, ve2)
+                    if [k[0] for k in kids2] != [0x0201, 0x0202]:
+                        regular = False       # repeated / missing / foreign elements inside an entry: which one counts is not stated
+                    kv = {k[0]: bytes(buf[k[2]:k[3]]) for k in kids2}
                     ents.append((kv.get(0x0201), kv.get(0x0202)))
+                else:
+                    regular = False
             out['add_desc'] = ents
+            out['add_desc_regular'] = regular
     return out
 
 
